@@ -193,4 +193,82 @@ def direct (s : St) (u : Url) : Res := (s.cur u).map fun eb => (eb.2, true)
 returned, offline look-ups ignore temp files -/
 def cfgReal (dirOf : Url → Dir) : Cfg := ⟨dirOf, id, true, true⟩
 
+/-! ### a server that sends no ETag (`etagFromResponse` answers `false`)
+
+`cacheTransport.fetchAndCache` hands the request to the wrapped transport (`return t.wrapped.Do(request)`) and
+`indexCache.get` fetches and parses without consulting or filling its table: nothing is looked up, nothing is stored,
+whatever other validators (`Last-Modified`, `Content-Length`) the response carries.  The only header that may name an
+entry is `ETag` (`tie_etag_is_the_only_validator`). -/
+
+/-- a request for a URL that is served without an ETag, through the caching transport or not (a cut connection on
+this path is resumed by the range-retry reader exactly as in the build without the disk cache: C20) -/
+def fetchNoEtag (s : St) (u : Url) : St × Res := (s, direct s u)
+
+/-! ### several repositories: `GetRepositoryIndexes` of an offline build
+
+`GetRepositoryIndexes` asks `indexCache.get` for every configured repository and DROPS a repository whose error
+satisfies a condition (`SkipRule`) instead of failing the build.  Offline, a remote index is answered by `fetchOffline`
+from the entry directory of its URL; when that directory does not exist (the repository was never cached) `os.ReadDir`
+fails with an error that wraps `fs.ErrNotExist`, which reaches `GetRepositoryIndexes` unchanged (`fmt.Errorf("%w")`,
+`*url.Error`). -/
+
+/-- what `indexCache.get` gives for one repository when nothing can be downloaded -/
+inductive OffIdx where
+  | notExist            -- an error that wraps `fs.ErrNotExist` (the entry directory / the local index file is not there)
+  | failed              -- any other error (no advertised entry in the directory; an entry that does not parse)
+  | index (b : Body)    -- a parsed index
+  deriving DecidableEq, Repr
+
+/-- the entry directory exists: `retrieveAndSaveFile` made it (`os.MkdirAll`) before it created its first temp file
+there, and nothing removes it -/
+def St.dirExists (s : St) (d : Dir) : Bool := s.files.any fun f => f.dir = d
+
+/-- `indexCache.get` for a remote repository of an offline build: HEAD and GET are both answered by `fetchOffline` -/
+def offlineIndex (cfg : Cfg) (s : St) (u : Url) : OffIdx :=
+  if s.dirExists (cfg.dirOf u) then
+    match parseRes (fetchOffline cfg s u) with
+    | some b => .index b
+    | none => .failed
+  else .notExist
+
+/-- the condition of the `if` in `GetRepositoryIndexes` under which a repository is dropped -/
+inductive SkipRule where
+  | anyNotExist     -- `errors.Is(err, fs.ErrNotExist)`: the code before the fix F19f
+  | localNotExist   -- `!remote && errors.Is(err, fs.ErrNotExist)`: only a local (non-http) repository is dropped
+  deriving DecidableEq, Repr
+
+def SkipRule.skips : SkipRule → (remote : Bool) → OffIdx → Bool
+  | .anyNotExist, _, .notExist => true
+  | .localNotExist, false, .notExist => true
+  | _, _, _ => false
+
+/-- `GetRepositoryIndexes` of an offline build over `repos` (`remote u`: an http(s) repository, read through the
+cache; otherwise a local one, read from the file system: `loc u`): the indexes the resolver gets, each with the
+repository it belongs to, or `none` — the build fails -/
+def offlineIndexes (rule : SkipRule) (cfg : Cfg) (s : St) (remote : Url → Bool) (loc : Url → OffIdx) :
+    List Url → Option (List (Url × Body))
+  | [] => some []
+  | u :: rest =>
+    match (if remote u then offlineIndex cfg s u else loc u) with
+    | .index b => (offlineIndexes rule cfg s remote loc rest).map fun l => (u, b) :: l
+    | r => if rule.skips (remote u) r then offlineIndexes rule cfg s remote loc rest else none
+
+/-- the same repositories read without the disk cache while the server is reachable (what the offline build has to
+reproduce): every remote repository contributes the index it serves now -/
+def directIndexes (s : St) (remote : Url → Bool) (loc : Url → OffIdx) : List Url → Option (List (Url × Body))
+  | [] => some []
+  | u :: rest =>
+    if remote u then
+      match s.cur u with
+      | some (_, b) => (directIndexes s remote loc rest).map fun l => (u, b) :: l
+      | none => none
+    else
+      match loc u with
+      | .index b => (directIndexes s remote loc rest).map fun l => (u, b) :: l
+      | .notExist => directIndexes s remote loc rest
+      | .failed => none
+
+/-- the rule of the code as it is -/
+def skipReal : SkipRule := .anyNotExist
+
 end Apko.CacheGlue
